@@ -538,6 +538,17 @@ func (c *evalCtx) evalCall(e *Expr) EV {
 			return EV{V: scalar(vc.bytesContent(c.st, a.V))}
 		}
 		return EV{V: scalar(c.int(a, e))} // strings and arrays are their own content
+	case "lexrank":
+		// the position of a byte string in the lexicographic order used by bytes.Compare (order embedding;
+		// equal ranks iff equal contents is assumed per compared pair by the bytes.Compare intrinsic)
+		a := arg(0)
+		var ct *Term
+		if a.V.K == VSlice {
+			ct = vc.bytesContent(c.st, a.V)
+		} else {
+			ct = c.int(a, e)
+		}
+		return EV{V: scalar(p.App("lexrank", SInt, ct))}
 	case "bytesof":
 		// content of k[:] for an array value k
 		a := arg(0)
